@@ -795,6 +795,30 @@ func (r *runner) denseRun(L int, mine func(block int) bool) {
 	}
 }
 
+// bindText: the text a variable is bound to. Mostly the shortest spelling of a float; one in eight is a plain run of
+// digits the way a log carries big counters and ids (15-25 digits, around the sizes of 2^53, MaxInt64 and MaxUint64):
+// the same digits written as a constant in the formula must give the same value.
+var bigDigitTexts = []string{"9007199254740993", "9223372036854775807", "9223372036854775808", "18446744073709551615", "18446744073709551616",
+	"99999999999999999999", "100000000000000000000", "12345678901234567890", "20000000000000000000", "1000000000000000000000000"}
+
+func bindText(r *run.Rand) string {
+	if r.Intn(8) != 0 {
+		return fstr(randValue(r))
+	}
+	if r.Intn(2) == 0 {
+		return r.Pick(bigDigitTexts)
+	}
+	n := r.Range(15, 25)
+	b := make([]byte, n)
+	for i := range b {
+		b[i] = byte('0' + r.Intn(10))
+	}
+	if b[0] == '0' {
+		b[0] = '1' + byte(r.Intn(9))
+	}
+	return string(b)
+}
+
 func (r *runner) randomCase(i int) *Case {
 	c := r.c
 	rr := c.Rand("random", i)
@@ -808,10 +832,10 @@ func (r *runner) randomCase(i int) *Case {
 	for k := 0; k < nb; k++ {
 		bd := Bind{Idx: map[string]string{}, Keys: map[string]string{}}
 		for v := 0; v < g.nvars; v++ {
-			bd.Idx[strconv.Itoa(v)] = fstr(randValue(rr))
+			bd.Idx[strconv.Itoa(v)] = bindText(rr)
 		}
 		for v := 0; v < g.nvars*2 && v < len(randNames); v++ {
-			bd.Keys[randNames[v]] = fstr(randValue(rr))
+			bd.Keys[randNames[v]] = bindText(rr)
 		}
 		binds = append(binds, bd)
 	}
